@@ -1146,6 +1146,8 @@ class Interp:
             if kk in ("tuple", "closure"):
                 return StructV(ops)
             if kk == "array":
+                if 0 < len(ops) <= 16:
+                    return OpaqueV(dest_ty, (("array_len", len(ops)), ("elems", StructV(ops))))
                 return OpaqueV(dest_ty, (("array_len", len(ops)),))
             if kk == "adt":
                 a = prog.adts.get(kind["path"])
@@ -1482,6 +1484,13 @@ class Interp:
         model = self.extra_models.get(call.path)
         if model is not None:
             results = model(self, st, call)
+        if results is None and body is not None and (body["path"] == ctx.body["path"] or any(fr[0] == body["path"] for fr in ctx.stack)):
+            # a call back into a function that is already being analysed: no descent (each level would re-analyse the
+            # whole body); the result is havoced and termination is reported as not established
+            msg = "recursive call of %s (from %s): termination and effect of the recursion are not established" % (body["path"], ctx.body["path"])
+            if msg not in self.imprecise:
+                self.imprecise.append(msg)
+            body = None
         if results is None and body is not None and ctx.depth < self.max_depth:
             if desc.get("closure_call"):
                 # FnMut::call_mut(&mut closure, (args,)) : unpack the tuple
